@@ -30,6 +30,7 @@ import ElvProofs.C17.Closure
 import ElvProofs.C17.Subseq
 import ElvProofs.C17.DocShow
 import ElvProofs.C17.ClosureSrc
+import ElvProofs.C17.MakeMap
 import ElvProofs.C01
 import ElvProofs.C03
 import ElvProofs.C06
@@ -296,6 +297,48 @@ example : docFindIn stableSortByFrom id [⟨[97, 98, 99, 100, 101, 102, 103, 104
     [[97, 98, 99, 100, 101, 102, 103, 104, 105, 106], [99, 100], [103, 104]] =
     .ok (some [[97, 98, 99, 100] ++ [101, 102] ++ [103, 104] ++ [105, 106, 107, 108]]) := by decide
 
+/-! ## 3d. `make-map`'s pair handling (pkg/eval/builtin_fn_container.go `makeMap`) — after seeded change C17-makemap-unchecked-pair-length -/
+
+/-- One input of `make-map`, for EVERY value and EVERY behaviour of `vals.CanIterate` / `vals.Len` /
+`vals.Collect` (in particular when `Len` and `Collect` disagree, as they do for strings: bytes vs. runes):
+the callback never panics, and it reaches `elems[0]`, `elems[1]` only when `vals.Collect` returned EXACTLY
+two entries — otherwise it records an exception (or keeps the pending one) and leaves the map alone. -/
+theorem C17_makeMap_pair_checked {V : Type} (ops : IterOps V) (st : MMState V) (v : V) :
+    (∃ e, makeMapStep ops true st v = .ok (st.1, some e)) ∨
+    (∃ k x, ops.collect v = .ok [k, x] ∧ st.2 = none ∧
+      makeMapStep ops true st v = .ok (st.1 ++ [(k, x)], none)) := by
+  have h := makeMapStep_spec ops st v
+  generalize makeMapStep ops true st v = r at h
+  cases h with
+  | pending e h => exact .inl ⟨e, by rw [← h]⟩
+  | error e _ => exact .inl ⟨e, rfl⟩
+  | pair k x h hc => exact .inr ⟨k, x, hc, h, rfl⟩
+
+/-- `makeMap` as a whole never panics: it raises an exception, or every input collected to exactly two
+entries and the map is built from exactly these pairs, in input order.  No hypothesis. -/
+theorem C17_makeMap_no_panic {V : Type} (ops : IterOps V) (inputs : List V) :
+    (∃ e, makeMap ops true inputs = .exc e) ∨
+    (∃ ps, makeMap ops true inputs = .ok ps ∧ inputs.map ops.collect = ps.map (fun p => .ok [p.1, p.2])) := by
+  unfold makeMap
+  rcases makeMapLoop_spec ops inputs [] with ⟨acc', e, h⟩ | ⟨ps, h, hf⟩
+  · exact .inl ⟨e, by rw [h]; rfl⟩
+  · exact .inr ⟨ps, by rw [h]; simp [Res.bind], hf⟩
+
+/-- non-vacuity: a map of two pairs, the second a 2-rune string of 3 bytes … is refused (Len = 3); a string of
+two ASCII characters is a pair. -/
+example : (makeMap MV.ops true [.list [.str [0x6b], .str [0x76]], .str [0x61, 0x62]]).isPanic = false ∧
+    (match makeMap MV.ops true [.list [.str [0x6b], .str [0x76]], .str [0x61, 0x62]] with
+      | .ok ps => ps.length == 2 | _ => false) = true := by
+  constructor <;> rfl
+
+/-- The last check is NOT dead code: `é` (2 bytes, 1 rune) passes `vals.Len(v) == 2` and collects to one
+element.  With the check `make-map [é]` raises "internal bug: collected 1 values"; without it (the seeded
+change, `guard = false`) `elems[1]` panics. -/
+theorem C17_makeMap_unguarded_counterexample :
+    makeMap MV.ops true [.str [0xc3, 0xa9]] = .exc "internal bug: collected 1 values" ∧
+    makeMap MV.ops false [.str [0xc3, 0xa9]] = .panic "index out of range" := by
+  constructor <;> rfl
+
 /-! ## 3b. `closure[def]` / `closure[body]` (pkg/eval/closure.go) — round 2 -/
 
 /-- For every source (arbitrary bytes): the parser returns a tree, and for every
@@ -523,7 +566,8 @@ def C17_covered : Prop :=
   (∀ (sort : List Ranging → List Ranging), SortContract sort → ∀ (styled : Bytes → Bytes) (bs : List Block)
     (qs : List Bytes), ∃ r, docFindIn sort styled bs qs = .ok r) ∧
   (∀ (isPrint : Int → Bool) (src : Bytes), ∃ t errs, C01.parse isPrint src = .ok t errs ∧
-    ∀ lam ∈ lambdasOf t, ∃ r, closureDefBody src lam = .ok r)
+    ∀ lam ∈ lambdasOf t, ∃ r, closureDefBody src lam = .ok r) ∧
+  (∀ (V : Type) (ops : IterOps V) (inputs : List V), (makeMap ops true inputs).isPanic = false)
 
 theorem C17_covered_partial : C17_covered :=
   ⟨C17_goFn_call_no_panic, C17_goFn_reflect_call_precondition,
@@ -531,7 +575,9 @@ theorem C17_covered_partial : C17_covered :=
    C17_hasSubseq_no_panic, C17_docfind_no_panic,
    fun isPrint src => by
      obtain ⟨t, errs, hp, _, hl⟩ := C17_closure_src_fields_no_panic isPrint src
-     exact ⟨t, errs, hp, fun lam h => (hl lam h).imp fun _ h => h.1⟩⟩
+     exact ⟨t, errs, hp, fun lam h => (hl lam h).imp fun _ h => h.1⟩,
+   fun V ops inputs => by
+     rcases C17_makeMap_no_panic ops inputs with ⟨e, h⟩ | ⟨ps, h, _⟩ <;> rw [h] <;> rfl⟩
 
 /-! ## 6. Every theorem the inventory may name exists -/
 
